@@ -125,7 +125,7 @@ def _race(b, tier):
     key = (b, tier)
     if key not in _RACE:
         base = BASES[b]
-        cands = T.race_candidates(base)
+        cands = T.race_candidates(base, tags=('state',))
         if tier == 'quick':
             depth = 3 if base['name'] in RACE_FULL3 else 2
             cap = 40000 if depth == 3 else 1200
